@@ -132,6 +132,24 @@ fn check_pair(ia: usize, ib: usize) -> Verdict {
             }
         }
     }
+    // one operand without a unit: which unit the result carries is left open by the statement;
+    // whatever it is, the magnitude is the IEEE result and no third unit appears
+    if ia == ib {
+        for &x in &[6.0, -1.5] {
+            let y = 4.0;
+            for left_has_unit in [true, false] {
+                let mk = |v: f64, with: bool| if with { Number::make_with_unit(v, a) } else { Number::make(v) };
+                let (na, nb) = (mk(x, left_has_unit), mk(y, !left_has_unit));
+                for (op, r, ieee) in [("add", na + nb, x + y), ("sub", na - nb, x - y), ("mul", na * nb, x * y), ("div", na / nb, x / y)] {
+                    if let Ok(n) = r {
+                        if n.value != ieee || !n.unit.map_or(true, |u| std::ptr::eq(u, a)) {
+                            return Err((format!("number-{op}-one-unitless-operand"), format!("{x} {op} {y} with {} on the {} = {:?}", ra.symbol(), if left_has_unit { "left" } else { "right" }, n)));
+                        }
+                    }
+                }
+            }
+        }
+    }
     Ok(())
 }
 
